@@ -513,7 +513,7 @@ func (e *c5e) defOfClose() bool {
 
 // closedEllipsisConj: inside an embedded expression, a conjunction with one operand that
 // has `...` at its own level and another operand that is closed; or a struct literal with
-// two sibling embeddings of that kind.
+// two sibling embeddings of that kind, or two declarations for the same label of that kind.
 func (e *c5e) closedEllipsisConj() bool {
 	isSuch := func(n *c5e) bool {
 		if n.op != '&' {
@@ -539,7 +539,7 @@ func (e *c5e) closedEllipsisConj() bool {
 			if d.kind != 'e' {
 				continue
 			}
-			if d.v.anyNode(isSuch) {
+			if d.v.anyNode(isSuch) || d.v.anyNode(func(m *c5e) bool { return len(m.ellClosedDeclPairs()) > 0 }) {
 				return true
 			}
 			// ... or two sibling embeddings, one with `...` at its own level, one closed
@@ -555,6 +555,37 @@ func (e *c5e) closedEllipsisConj() bool {
 		}
 		return ell && cls
 	})
+}
+
+// ellClosedDeclPairs: in a struct literal, two declarations for the same label (same field
+// label, same pattern, or a field and a pattern) one of whose values has `...` at its own
+// level while the other is closed; returns the indices of the `...` declarations.
+func (e *c5e) ellClosedDeclPairs() []int {
+	if e.op != '{' {
+		return nil
+	}
+	same := func(a, b c5d) bool {
+		switch {
+		case a.kind == 'f' && b.kind == 'f':
+			return a.label == b.label
+		case a.kind == 'p' && b.kind == 'p':
+			return a.pat == b.pat
+		}
+		return true
+	}
+	var out []int
+	for i, a := range e.decls {
+		if (a.kind != 'f' && a.kind != 'p') || !a.v.hasEllTop() {
+			continue
+		}
+		for j, b := range e.decls {
+			if i != j && (b.kind == 'f' || b.kind == 'p') && same(a, b) && !b.v.hasEllTop() && b.v.topClosers() > 0 {
+				out = append(out, i)
+				break
+			}
+		}
+	}
+	return out
 }
 
 // conflictingRequiredUnderHidden: below a hidden/definition field, a struct literal with a
@@ -614,6 +645,11 @@ func (e *c5e) repair(class string, underHidden bool) *c5e {
 		}
 	case "ellipsis-inside-embedding": // (closed & {..., f}) == (closed & {f}); {{..., f}, E} == {{f}, E, ...}
 		if n.op == '{' {
+			for _, i := range n.ellClosedDeclPairs() {
+				n.decls[i].v.stripEllTop()
+			}
+		}
+		if n.op == '{' {
 			cls, hoist := false, false
 			for _, d := range n.decls {
 				if d.kind == 'e' && d.v.topClosers() > 0 {
@@ -642,16 +678,8 @@ func (e *c5e) repair(class string, underHidden bool) *c5e {
 				}
 			}
 			if cls {
-				for i, a := range n.args {
-					if a.op == '{' {
-						var ds []c5d
-						for _, d := range a.decls {
-							if d.kind != '.' {
-								ds = append(ds, d)
-							}
-						}
-						n.args[i] = lit(ds...)
-					}
+				for _, a := range n.args {
+					a.stripEllTop()
 				}
 			}
 		}
